@@ -175,6 +175,14 @@ def run_history(res, cfg, scratch, rng, hidx, kill_budget):
             if op["op"] not in MUTATORS:
                 s.do(op)
                 continue
+            if op["op"] in ("remove", "update") and rng.random() < 0.25 and s.model.points:
+                # a query whose parts are answered differently (index-exact part | part that needs a storage scan):
+                # however the operation is carried out, it must reach the file as ONE change
+                p0 = rng.choice(s.model.points)
+                exact = ("cmp", "measurement", (), "==", p0.m) if rng.random() < 0.5 else ("cmp", "time", (), "<=", ("T", p0.t, 0))
+                scan = ("not", ("cmp", "fields", (rng.choice(["x", "y"]),), rng.choice([">", "<=", "=="]), rng.choice([0, 1, 2])))
+                op["q"] = (rng.choice(["or", "or", "and"]), exact, scan) if rng.random() < 0.7 else ("or", scan, exact)
+                res.count("mixed_exact_and_scan_queries")
             if rng.random() < 0.4 and s.model.points:
                 # a read that stops early leaves the file position somewhere in the middle
                 s.do({"op": rng.choice(["get", "contains"]), "q": ("cmp", "measurement", (), "==", rng.choice(gen.MEAS))})
@@ -317,6 +325,7 @@ def run(res, tier, seed, shard, nshards):
 def finalize(res, tier):
     res.require("large_file_ops")
     res.require("histories_through_a_symlink")
+    res.require("mixed_exact_and_scan_queries")
     if sysmon.available():
         res.require("kill.crash_points")
 
